@@ -5,6 +5,7 @@ from __future__ import annotations
 from ..interp import Hooks, explore
 from ..model import norm
 from ..values import ClsRef, Const, NodeV, Str, Sym, tagof
+from ..execmodel import R
 from .common import all_kinds, find_store_site, same_val, site_loc, sql_root, text_of, traces
 
 EXPLANATION = (
@@ -59,14 +60,14 @@ def _mentions_count(v) -> bool:
 def rule_count(ctx):
     prog = ctx.prog
     ctx.analysed("cursor.FakeSnowflakeCursor._execute", "cursor.FakeSnowflakeCursor._transform", "cursor.FakeSnowflakeCursor.rowcount")
-    site = find_store_site(prog, "cursor", "FakeSnowflakeCursor._execute", "_rowcount")
+    site = find_store_site(prog, "cursor", "FakeSnowflakeCursor._execute", R().rowcount)
     n = 0
     for kind in DML:
         for tr in traces(prog, kind):
             if tr.path.outcome != "return":
                 continue
             n += 1
-            rc = tr.cur.attrs.get("_rowcount")
+            rc = tr.cur.attrs.get(R().rowcount)
             pub = tr.public_rowcount
             ok = _count_sym(rc) and rc.origin[1] == 1
             ctx.ob("C04.a", f"{kind}: rowcount is the engine's affected count", ok, site_loc(prog, "cursor", site), tagof(rc))
@@ -88,8 +89,8 @@ def rule_count(ctx):
             if tr.path.outcome != "return":
                 continue
             n += 1
-            rc = tr.cur.attrs.get("_rowcount")
-            tab = tr.cur.attrs.get("_arrow_table")
+            rc = tr.cur.attrs.get(R().rowcount)
+            tab = tr.cur.attrs.get(R().table)
             ok = isinstance(rc, Sym) and tab is not None and getattr(tab, "attrs", {}).get("num_rows") is rc
             ctx.ob("C04.a", f"{kind}: rowcount is the number of result rows", ok, site_loc(prog, "cursor", site), tagof(rc))
             if not ok:
@@ -185,15 +186,15 @@ def rule_last_statement(ctx):
     """C04.d / C06.a: the statement whose result is collected is the one recorded as _last_sql."""
     prog = ctx.prog
     n = 0
-    site = find_store_site(prog, "cursor", "FakeSnowflakeCursor._execute", "_last_sql")
+    site = find_store_site(prog, "cursor", "FakeSnowflakeCursor._execute", R().last_sql)
     for kind in all_kinds():
         for tr in traces(prog, kind):
             if tr.path.outcome != "return" or not tr.engine_sql:
                 continue
             n += 1
             last_exec = tr.engine_sql[-1]
-            last_sql = tr.cur.attrs.get("_last_sql")
-            tab = tr.cur.attrs.get("_arrow_table")
+            last_sql = tr.cur.attrs.get(R().last_sql)
+            tab = tr.cur.attrs.get(R().table)
             fetched_after = getattr(tab, "attrs", {}).get("of_call")
             ok_fetch = isinstance(fetched_after, Const) and fetched_after.v == len(tr.engine_sql) - 1
             ok = last_sql is not None and same_val(last_exec, last_sql) and ok_fetch
